@@ -332,6 +332,12 @@ int main(int argc, char **argv) {
       } else if (what == "ex") {
         GenOpts o; o.maxCells = 10; TCircuit t = genCircuit(g, o);
         for (auto &cl : t.cells) if (g.coin(30)) cl[6] = 1;            // more fixed cells, also first / last / consecutive
+        if (g.coin(25))                                                 // far-away fixed pads: coordinates that binary32 cannot hold exactly
+          for (auto &cl : t.cells) if (cl[6] && g.coin(60)) {
+            long long mag = 1LL << g.uni(22, 29);
+            cl[0] = (g.coin(50) ? 1 : -1) * (mag + g.uni(0, 1000)); if (g.coin(50)) cl[1] = (g.coin(50) ? 1 : -1) * (mag + g.uni(0, 1000));
+            if (g.coin(50)) { cl[2] = 2 * g.uni(0, 20) + 1; cl[3] = 2 * g.uni(0, 20) + 1; }
+          }
         int n = (int)t.cells.size(), kind = (int)g.uni(0, 2); std::ostringstream s;
         if (kind == 0) { s << n; for (int i = 0; i < n; ++i) s << " " << g.uni(-200, 200) << " " << g.uni(-200, 200); }
         else if (kind == 1) { int mov = 0; for (auto &cl : t.cells) mov += !cl[6]; int m = g.coin(70) ? mov : (int)g.uni(0, n + 2); s << m; for (int i = 0; i < m; ++i) s << " " << g.coin(80) << " " << g.uni(-99, 99) << " " << g.uni(-99, 99) << " " << g.uni(0, 9); }
@@ -340,6 +346,12 @@ int main(int argc, char **argv) {
       } else {   // fr
         GenOpts o; o.nets = true; o.utilLo = 15; o.utilHi = 110; o.maxCells = g.coin(30) ? 30 : 12;
         TCircuit t = genCircuit(g, o);
+        if (g.coin(12))                                                 // far-away fixed pads (see "ex")
+          for (auto &cl : t.cells) if (cl[6] && g.coin(60)) {
+            long long mag = 1LL << g.uni(22, 27);
+            cl[0] = (g.coin(50) ? 1 : -1) * (mag + g.uni(0, 1000)); if (g.coin(50)) cl[1] = (g.coin(50) ? 1 : -1) * (mag + g.uni(0, 1000));
+            if (g.coin(50)) { cl[2] = 2 * g.uni(0, 20) + 1; cl[3] = 2 * g.uni(0, 20) + 1; }
+          }
         std::ostringstream s; int kindseq = (int)g.uni(0, 5); std::vector<int> stages;
         switch (kindseq) { case 0: stages = {0}; break; case 1: stages = {1}; break; case 2: stages = {2}; break; case 3: stages = {0, 1, 2}; break; case 4: stages = {1, 2}; break; default: stages = {0, 2}; break; }
         s << stages.size();
